@@ -252,6 +252,14 @@ def main():
     m5 = re.findall(r"let use_bland = stalls > stall_limit;", tab)
     if not m3 or len(m4) != 2 or len(set(m4)) != 1 or len(m5) != 2:
         errs.append("simplex phase-1 limit / stall_limit formula")
+    # ratio test of find_t: tolerant ties (`if float_eq(ratio, min.1)` ... `else if float_lt(ratio, min.1)`) or
+    # exact (`if ratio < min.1` ... `else if ratio == min.1`), see fixes/C14-ratio-test-exact.diff  [agent-std]
+    ft = re.search(r"fn find_t\(.*?\n    \}\n", tab, re.S)
+    ft = ft.group(0) if ft else ""
+    tolerant = bool(re.search(r"if float_eq\(ratio, min\.1\) \{", ft)) and bool(re.search(r"\} else if float_lt\(ratio, min\.1\) \{", ft))
+    exact = bool(re.search(r"if ratio < min\.1 \{", ft)) and bool(re.search(r"\} else if ratio == min\.1 \{", ft))
+    if tolerant == exact:
+        errs.append("find_t ratio test (neither / both of the two known shapes)")
     if errs:
         print("extractor could not re-read: " + "; ".join(errs))
         return 1
@@ -259,6 +267,9 @@ def main():
     t += f"def phase1IterationLimit : Nat := {int(m3.group(1))}\n"
     t += f"/-- `stall_limit = c.len() + a.len() + stallLimitExtra`; Bland's rule once `stalls > stall_limit`. -/\n"
     t += f"def stallLimitExtra : Nat := {int(m4[0])}\n"
+    t += "/-- `find_t`: `true` = exact ratio test (smaller ratio wins, Bland's index rule on EXACT ties only);\n"
+    t += "`false` = ties within the tolerance (`float_eq`) go to the smaller basic index. -/\n"
+    t += f"def ratioTestExact : Bool := {'true' if exact else 'false'}\n"
     t += "end Rooc.Gen\n"
     write_if_changed(os.path.join(GEN, "Simplex.lean"), t)
     low = lambda s: s[0].lower() + s[1:]
